@@ -54,6 +54,7 @@ var c13Tags = func() []string {
 	}
 	t = append(t, "set-on-nonleaf")
 	t = append(t, "match-valid", "match-long", "match-base-deeper", "match-foreign-base", "match-syntax", "match-other")
+	t = append(t, "rel-valid", "rel-up", "rel-query", "rel-up-query", "rel-up-query-other", "rel-no-parent", "rel-bad")
 	return t
 }()
 
@@ -699,6 +700,159 @@ func c13Paths(r *gen.Rng, w *c13World, pos []*c13Pos) []*c13Req {
 	return out
 }
 
+// ---- Find on a selection below the root: "../" steps and a query part ----------------------------------
+
+// c13Levels: the URL paths (from the root) of the selections root.Find(path) builds, outermost first: the
+// root, one per container / leaf step and two per step that carries a key (the list, then the entry)
+func c13Levels(path string) []string {
+	levels := []string{""}
+	if path == "" {
+		return levels
+	}
+	prefix := ""
+	for _, seg := range strings.Split(path, "/") {
+		if i := strings.Index(seg, "="); i >= 0 {
+			levels = append(levels, c13Join(prefix, seg[:i]))
+		}
+		prefix = c13Join(prefix, seg)
+		levels = append(levels, prefix)
+	}
+	return levels
+}
+
+// a query of exactly n bytes that names no parameter the library knows (letters that spell none of them)
+func c13NeutralQuery(r *gen.Rng, n int) string {
+	if n == 0 {
+		return ""
+	}
+	kl := 1 + r.Intn(n)
+	if kl == n-1 && r.Chance(1, 2) {
+		kl = n // "key=" with an empty value is kept for half of these
+	}
+	b := make([]byte, 0, n)
+	for i := 0; i < kl; i++ {
+		b = append(b, "qzjkxQ_"[r.Intn(7)])
+	}
+	if kl < n {
+		b = append(b, '=')
+		for len(b) < n {
+			b = append(b, "0123456789qz.-"[r.Intn(14)])
+		}
+	}
+	return string(b)
+}
+
+var c13OtherQueries = []string{"depth=1", "depth=12", "depth=0", "depth=x", "depth=", "depth", "content=config", "content=all", "content=zz",
+	"with-defaults=trim", "fc.max-node-count=5", "fc.max-node-count=0", "%zz", "%", "a=%", "a=%41", "&", "&&", "=", "==", "a&b", "a=1&b=2", "?", "#", "a#b",
+	"a b", "a+b", "a;b", "a/b", "../", "a=../b", "fields=", "fields=x", "fc.xfields=x", "fc.range=!1", "fc.range=x!0-1", "where=", "where=a%3D1", "filter=x",
+	"\x00", "\xff", "a=\x7f", ":", "a:b", "[", "a=é"}
+
+// c13Rel: Find(text) on the selection at a position of the data. text = k "../" steps + a path relative to the
+// selection they lead to (+ "?" + query). The stream is stratified, not sampled: every block of 36 requests has a
+// "../" path with a query of every length 0..15, so that each short query length meets each small k over the
+// worlds of one run.
+func c13Rel(r *gen.Rng, w *c13World, pos []*c13Pos, n int) []*c13Req {
+	var targets []*c13Pos
+	for _, p := range pos {
+		if !p.absent {
+			targets = append(targets, p)
+		}
+	}
+	if len(targets) == 0 {
+		return nil
+	}
+	var out []*c13Req
+	add := func(tag string, t *c13Pos, text string) {
+		out = append(out, &c13Req{W: w.Idx, Kind: "path", Tag: tag, Text: text, At: t.path, AtNames: t.names, AtRow: t.kind == "row"})
+	}
+	depth := func(t *c13Pos) int { return len(c13Levels(t.path)) - 1 }
+	// a target with at least k selections above it (k is lowered when the world has none that deep)
+	pick := func(k int) (*c13Pos, int) {
+		for ; k > 0; k-- {
+			var deep []*c13Pos
+			for _, t := range targets {
+				if depth(t) >= k {
+					deep = append(deep, t)
+				}
+			}
+			if len(deep) > 0 {
+				return gen.Pick(r, deep), k
+			}
+		}
+		return gen.Pick(r, targets), 0
+	}
+	// a path relative to the selection k levels above t: mostly one that resolves (to t itself, a sibling, a node
+	// below), sometimes empty, unknown or mutated
+	tail := func(t *c13Pos, k int, valid bool) string {
+		lv := c13Levels(t.path)
+		anc := lv[len(lv)-1-k]
+		var tails []string
+		for _, q := range pos {
+			if anc == "" {
+				tails = append(tails, q.path)
+			} else if strings.HasPrefix(q.path, anc+"/") {
+				tails = append(tails, q.path[len(anc)+1:])
+			} else if q.path == anc {
+				for _, kid := range q.s.Kids { // the list selection itself: idents of its entries' kids resolve
+					tails = append(tails, kid.Name)
+				}
+			}
+		}
+		if !valid {
+			base := "nosuch"
+			if len(tails) > 0 {
+				base = gen.Pick(r, tails)
+			}
+			return gen.Pick(r, []string{"nosuch", base + "/nosuch", base + "=1", "%zz", c13CharMut(r, base, c13MutChars), base + "/../x", "..", "./" + base, "/" + base})
+		}
+		if len(tails) == 0 || r.Chance(1, 8) {
+			return ""
+		}
+		return gen.Pick(r, tails)
+	}
+	ups := func(k int) string { return strings.Repeat("../", k) }
+	for i := 0; len(out) < n; i++ {
+		slot := i % 36
+		switch {
+		case slot < 16: // "../" steps and a query of exactly `slot` bytes naming no known parameter
+			t, k := pick(gen.Pick(r, []int{1, 1, 2, 2, 3, 3, 4, 5}))
+			add("rel-up-query", t, ups(k)+tail(t, k, true)+"?"+c13NeutralQuery(r, slot))
+		case slot < 22:
+			t, k := pick(gen.Pick(r, []int{1, 2, 3, 4}))
+			add("rel-up-query-other", t, ups(k)+tail(t, k, !r.Chance(1, 5))+"?"+gen.Pick(r, c13OtherQueries))
+		case slot < 26:
+			t := gen.Pick(r, targets)
+			q := c13NeutralQuery(r, r.Intn(12))
+			if r.Chance(1, 2) {
+				q = gen.Pick(r, c13OtherQueries)
+			}
+			add("rel-query", t, tail(t, 0, true)+"?"+q)
+		case slot < 30:
+			t, k := pick(1 + r.Intn(4))
+			add("rel-up", t, ups(k)+tail(t, k, true))
+		case slot < 31:
+			t := gen.Pick(r, targets)
+			add("rel-valid", t, tail(t, 0, true))
+		case slot < 34: // more "../" steps than there are selections above the target
+			t := gen.Pick(r, targets)
+			k := depth(t) + 1 + r.Intn(2)
+			text := ups(k) + gen.Pick(r, []string{"", "x", t.s.Name})
+			if r.Chance(1, 2) {
+				text += "?" + c13NeutralQuery(r, r.Intn(10))
+			}
+			add("rel-no-parent", t, text)
+		default:
+			t, k := pick(r.Intn(3))
+			text := ups(k) + tail(t, k, false)
+			if r.Chance(1, 2) {
+				text += "?" + c13NeutralQuery(r, r.Intn(10))
+			}
+			add("rel-bad", t, text)
+		}
+	}
+	return out
+}
+
 // ---- queries ---------------------------------------------------------------------------------------
 
 func c13Queries(r *gen.Rng, w *c13World, pos []*c13Pos) []*c13Req {
@@ -1017,6 +1171,7 @@ func c13Streams(r *gen.Rng, w *c13World, budget int, thorough bool) []*c13Req {
 	out = append(out, c13Sample(r.Fork(6), c13XParse(r.Fork(16), w, pos), share(8))...)
 	out = append(out, c13Sample(r.Fork(7), c13Sets(r.Fork(17), w, pos), share(5))...)
 	out = append(out, c13Sample(r.Fork(8), c13Matches(r.Fork(18), w, pos), share(7))...)
+	out = append(out, c13Rel(r.Fork(19), w, pos, share(11))...) // on top of the 100 % of the sampled streams
 	return out
 }
 
